@@ -350,9 +350,33 @@ func (s *state) invariant(step int, op Op) *vt.Verdict {
 }
 
 func (s *state) lookups(step int, op Op, idxs []int) *vt.Verdict {
+	// results of earlier lookups of this batch are kept and looked at again after the later ones: a name is resolved, others
+	// are resolved, and then the first result is used
+	type keptID struct {
+		name string
+		id   []byte
+		snap []byte
+	}
+	var kept []keptID
+	defer func() {
+		for _, k := range kept {
+			for j := range k.id {
+				k.id[j] ^= 0xA5 // what the caller does with a returned id is the caller's business
+			}
+		}
+	}()
 	for _, i := range idxs {
+		for _, k := range kept {
+			if !bytes.Equal(k.id, k.snap) {
+				x := vt.Bad("step %d (%s): the heap id returned by SearchRecord(%q) changed from %x to %x when another name was looked up", step, op.K, k.name, k.snap, k.id)
+				return &x
+			}
+		}
 		name := s.names[i]
 		id, ok := s.bt.SearchRecord(name)
+		if ok {
+			kept = append(kept, keptID{name, id, append([]byte{}, id...)})
+		}
 		has := s.bt.HasKey(name)
 		v, live := s.model[name]
 		bad := ""
